@@ -691,6 +691,12 @@ fn extra_op(c: &mut Chain, cx: &mut Ctx, r: &mut Rng, mi: usize, k: u64, view: &
             let res = exec(c, cx, format!("prove_commit miner={} sectors=[{}] deals=[{}]", mi, sn, d), false, false, |c| c.prove_commit_with_deals(mi, sn, &[d]));
             if res.ok() { deals[pos].4 = true; *proven_any = true; }
         }
+    } else if k < 115 && !deals.is_empty() {
+        // anybody settles some deals (before start, at start, later)
+        let ids: Vec<u64> = deals.iter().filter(|_| r.chance(1, 2)).map(|d| d.0).collect();
+        if !ids.is_empty() {
+            exec(c, cx, format!("settle_deals by=client4 deals={:?}", ids), false, false, |c| c.settle_deals(4, &ids));
+        }
     } else if k < 117 {
         let n = r.range(1, 3) as usize;
         let dl = r.below(48);
@@ -756,6 +762,10 @@ fn long_fault_script(c: &mut Chain, cx: &mut Ctx, pending: &mut Vec<Vec<(u64, i6
                 advance(c, cx, target, false);
                 record_balances(c);
                 exec(c, cx, format!("prove_commit miner={} sectors=[{}] deals=[{}]", mi, sn, d), false, false, |c| c.prove_commit_with_deals(mi, sn, &[d]));
+                // settling an activated deal before its start is a legal no-op; the market cron must
+                // still be able to process the deal when it reaches it (weeks later in this history)
+                record_balances(c);
+                exec(c, cx, format!("settle_deals by=client3 deals=[{}]", d), false, false, |c| c.settle_deals(3, &[d]));
             }
         }
         let midn = c.miners[mi].id.id().unwrap();
